@@ -303,6 +303,72 @@ def run(ctx):
             ctx.violation(f"C14:after-rescaling:alias-differs-from-canonical:{'name=' + base}", {"name": name, "canonical": base, "prefix": p_, "got": got, "canonical_now": ref})
         elif name != base:
             ctx.nt((name, "after-rescaling"))
+    # (7) user-defined prefixable symbols with spellings that the prefix splitter treats specially ("<unit>cm" comoving names as yt
+    #     defines them, names that end in / begin with another symbol): their own prefixed forms are prefix x value, and using them
+    #     changes nothing about what any documented name denotes in that registry (by string and through the registry's namespace)
+    reg4 = UnitRegistry()
+    before = {}
+    for name in names:
+        try:
+            before[name] = _unit_facts(Unit(name, registry=UnitRegistry()))
+        except UnitParseError:
+            pass
+    user = {}
+    k_ = 0
+    for b in T.ROWS:
+        if not T.ROWS[b]["prefixable"] or b in ("", "dimensionless"):
+            continue
+        for suffix in ("cm", "cmh", "h", "_c"):
+            nm_ = b + suffix
+            if R.readings(nm_):
+                continue
+            try:
+                Unit(nm_, registry=reg4)
+                continue  # the library already reads this string as something
+            except UnitParseError:
+                pass
+            except Exception:
+                continue
+            k_ += 1
+            val = float(lib_base(b)[0]) / (1.0 + (k_ % 4))
+            try:
+                reg4.add(nm_, val, Unit(b).dimensions, tex_repr="\\rm{" + b + "}/(1+z)", prefixable=True)
+            except Exception as e:
+                ctx.count(f"user symbol refused ({type(e).__name__})")
+                continue
+            user[nm_] = (val, lib_base(b)[1])
+    ctx.count("user-defined prefixable symbols with splitter-sensitive spellings", len(user))
+    for nm_, (val, dim) in user.items():
+        for p_ in T.PREFIXES:
+            s = p_ + nm_
+            if R.readings(s):
+                continue  # the string is also a documented name: that reading wins, judged below
+            ctx.ev()
+            ctx.nt(("user-prefixed", s))
+            try:
+                got = _unit_facts(Unit(s, registry=reg4))
+            except UnitParseError as e:
+                ctx.violation("C14:user-symbol:prefixed-form-unresolvable", {"name": s, "error": str(e)[:120]})
+                continue
+            if got[1] != dim or not _close(got[0], val * float(T.PREFIXES[p_][0]), 1e-14):
+                ctx.violation("C14:user-symbol:prefixed-form-wrong", {"name": s, "got": got, "want_scale": val * float(T.PREFIXES[p_][0])})
+    ns4 = {}
+    add_symbols(ns4, reg4)
+    for name, want in before.items():
+        ctx.ev()
+        try:
+            got = _unit_facts(Unit(name, registry=reg4))
+        except UnitParseError as e:
+            ctx.violation(f"C14:after-user-symbols:unresolvable:{_rootkey(name)}", {"name": name, "error": str(e)[:120]})
+            continue
+        if got[1] != want[1] or not _close(got[0], want[0], 1e-14) or not _close(got[2], want[2], 1e-12):
+            ctx.violation(f"C14:after-user-symbols:documented-name-changed-meaning:{_rootkey(name)}", {"name": name, "got": got, "in_a_fresh_registry": want, "how": "string"})
+        obj = ns4.get(name)
+        if isinstance(obj, Unit):
+            ctx.ev()
+            g2 = _unit_facts(obj)
+            if g2[1] != want[1] or not _close(g2[0], want[0], 1e-14) or not _close(g2[2], want[2], 1e-12):
+                ctx.violation(f"C14:after-user-symbols:documented-name-changed-meaning:{_rootkey(name)}", {"name": name, "got": g2, "in_a_fresh_registry": want, "how": "registry namespace"})
     ctx.count("namespace entries affected by modified symbols", nmod)
     ctx.count("ambiguous strings", namb)
     ctx.count("forbidden prefix strings", nforb)
